@@ -174,7 +174,17 @@ def run_special(pid, tier, seed, work, cfg):
             a = [float.fromhex(x) for x in cj["values"][name]]
             b = [float.fromhex(x) for x in ci["values"][name]]
             if len(a) != len(b):
-                res["violations"].append({"key": "C19:shape", "what": f"{name}: different sizes", "replay": cj["desc"]})
+                nd_ = cj["desc"]["nd"]
+                # known finding F18: a grid-honouring ray can store one or two vertices more or fewer in the compiled
+                # build than in the interpreter (a point within the 1e-8 "grid magnetism" of a line, or a shrink factor
+                # equal to 1 within rounding, falls on different sides in the two builds)
+                key = "C19:ray-vertex-count-sensitivity" if name.startswith("ray_") and abs(len(a) - len(b)) <= 2 * nd_ else "C19:shape"
+                dd = cj["desc"]["d"]
+                if name == "ray_True" and (len(a) == 0 or len(b) == 0) and max(dd) / min(dd) >= 4:
+                    # known finding F19: in strongly elongated cells grid-honouring rays exhaust their budget very often
+                    # (they stall on grid lines, F15), and whether a given ray does differs between the two builds
+                    key = "C19:honor-grid-budget-sensitivity-elongated-cells"
+                res["violations"].append({"key": key, "what": f"{name}: {len(a) // nd_ if name.startswith('ray') else len(a)} vs {len(b) // nd_ if name.startswith('ray') else len(b)} entries", "replay": cj["desc"]})
                 continue
             fin = [abs(x) for x in a + b if math.isfinite(x) and abs(x) < 0.99e5]
             sc = max(fin) if fin else 1.0
